@@ -26,17 +26,21 @@ DEFINE_PROGS = {
 
 
 def chunks(tier):
+    """small, always-completed parts first (the pool takes chunks in this order), budget-limited edit sweep last"""
     out = []
     for name in DEFINE_PROGS:
         out.append(dict(part="define", prog=name))
+    # the -R value as the command line delivers it (whatever shape argparse gives it): an unknown word of 1..14 letters
+    for n in ((1, 10, 11, 12, 13) if tier == "quick" else range(1, 15)):
+        out.append(dict(part="cliR", n=n))
+    for kind in ("cfile", "hfile"):
+        for n in ((0, 1, 2) if tier == "quick" else (0, 1, 2, 3)):
+            out.append(dict(part="cli", kind=kind, n=n))
     progs = ["fn.c", "gl.c"] if tier == "quick" else list(E.BASE_SRC)
     for name in progs:
         nb = len(E.boundaries(name))
         for b in range(0, nb, 4 if tier == "quick" else 1):
             out.append(dict(part="edit", prog=name, b=b))
-    for kind in ("cfile", "hfile"):
-        for n in ((0, 1, 2) if tier == "quick" else (0, 1, 2, 3)):
-            out.append(dict(part="cli", kind=kind, n=n))
     return out
 
 
@@ -80,6 +84,8 @@ def run_chunk(chunk, ctx):
     part = chunk["part"]
     if part == "cli":
         return run_cli(chunk, ctx)
+    if part == "cliR":
+        return run_cli_r(chunk, ctx)
     ex = Explorer()
     core.set_run(ex)
     col = Collector(HNAME, seed=ctx["seed"], sample_rate=ctx.get("sample_rate", 0.1))
@@ -269,6 +275,91 @@ def run_cli(chunk, ctx):
     return res
 
 
+RTEXT = "#define foo(x) 12\n#define BAR 12 34\n#define baz 5\n\nint\tmain(void)\n{\n\treturn (0);\n}\n"
+
+
+def run_cli_r(chunk, ctx):
+    """real main() on a file with #define diagnostics: `-R <word>` with every letter of the word symbolic (delivered in
+    the shape the real argparse configuration produces) versus no -R at all"""
+    import norminette.__main__ as M
+    import argparse
+    import tempfile
+    import shutil
+    n = chunk["n"]
+    ex = Explorer()
+    core.set_run(ex)
+    col = Collector(HNAME, seed=ctx["seed"], sample_rate=1.0, max_witness=10)
+    wv = [declare(Var(f"r{i}", map(ord, F.LOW + F.UP + "0123456789_"))) for i in range(n)]
+    if n == 11:
+        ex.solver.add(z3.Or([v.z != ord(c) for v, c in zip(wv, "CheckDefine")]))
+    tmp = tempfile.mkdtemp(prefix="nverif-")
+    fname = "rdef.c"
+    text = "".join(l.default_text() + "\n" for l in F.header_lines(fname)) + "\n" + RTEXT
+    open(os.path.join(tmp, fname), "w").write(text)
+    real_parse = argparse.ArgumentParser.parse_args
+    cur = {}
+
+    def run_main(argv, word):
+        out = io.StringIO()
+        code, exc = None, None
+
+        def parse(self, *a, **k):
+            ns = real_parse(self, *a, **k)
+            if word is not None:
+                r = getattr(ns, "R", None)
+                if isinstance(r, list):
+                    ns.R = [word if x == "PLACEHOLDER" else x for x in r]
+                elif r == "PLACEHOLDER":
+                    ns.R = word
+            return ns
+        old = sys.argv, os.getcwd()
+        sys.argv = ["norminette", "--no-colors"] + argv
+        argparse.ArgumentParser.parse_args = parse
+        os.chdir(tmp)
+        try:
+            with contextlib.redirect_stdout(out), contextlib.redirect_stderr(io.StringIO()):
+                try:
+                    M.main()
+                except SystemExit as e:
+                    code = e.code
+                except core.EngineGap:
+                    raise
+                except Exception as e:
+                    exc = type(e).__name__
+        finally:
+            sys.argv = old[0]
+            os.chdir(old[1])
+            argparse.ArgumentParser.parse_args = real_parse
+        return parse_cli(out.getvalue()), code, exc
+
+    def body():
+        cur.clear()
+        w = SymStr(list(wv))
+        base = run_main([fname], None)
+        a = run_main(["-R", "PLACEHOLDER", fname], w)
+        cur["word"] = w.concretize(ex.model())
+        if a != base:
+            col.violation(f"C16:cli-R-word:{_diff(a, base)}", "an unknown -R word changes the findings of a run",
+                          dict(part="cliR", word=cur["word"]))
+            cur["viol"] = True
+        return dict(ok=True)
+
+    def on_path(res, status):
+        if status == "gap":
+            col.gap(str(res)[:100])
+        elif status == "timeout":
+            col.count("slow_paths_not_analysed")
+        elif status == "ok" and not cur.get("viol") and col.want_witness():
+            col.add_witness(dict(part="cliR", word=cur["word"]), dict(ok=True))
+    try:
+        ex.explore(body, on_path=on_path, max_time=max(1.0, min(ctx.get("chunk_time", 90), ctx["deadline"] - time.time())), path_alarm=30.0)
+    finally:
+        shutil.rmtree(tmp, ignore_errors=True)
+    res = col.finish(limit=60)
+    res["stats"] = ex.stats()
+    return res
+
+
 def _diff(a, b):
     if a[2] or b[2]:
         return f"exception:{a[2]}|{b[2]}"
@@ -320,6 +411,18 @@ def replay(case):
         return dict(digest=dict(ok=not viol), violations=viol)
     import tempfile
     import shutil
+    if case["part"] == "cliR":
+        tmp = tempfile.mkdtemp(prefix="nverif-")
+        try:
+            fname = "rdef.c"
+            open(os.path.join(tmp, fname), "w").write("".join(l.default_text() + "\n" for l in F.header_lines(fname)) + "\n" + RTEXT)
+            base = native_cli(["--no-colors", fname], tmp)
+            a = native_cli(["--no-colors", "-R", case["word"], fname], tmp)
+            if a != base:
+                viol.append([f"C16:cli-R-word:{_diff(a, base)}", "an unknown -R word changes the findings"])
+        finally:
+            shutil.rmtree(tmp, ignore_errors=True)
+        return dict(digest=dict(ok=not viol), violations=viol)
     kind, text, opts = case["kind"], case["text"], case["opts"]
     fname = "n" + (".c" if kind == "cfile" else ".h")
     tmp = tempfile.mkdtemp(prefix="nverif-")
